@@ -261,6 +261,16 @@ def strip_noncode(seg):
     return "".join(buf)
 
 
+def seg_module_path(spec, name):
+    """segment modules are children of src/dev/mod.rs unless the spec names another parent file"""
+    parent = spec.get("parent", "src/dev/mod.rs")
+    d = os.path.dirname(parent)
+    stem = os.path.basename(parent)[:-3]
+    if stem not in ("mod", "lib"):
+        d = os.path.join(d, stem)
+    return os.path.join(d, "verif_seg_%s.rs" % name.lower())
+
+
 def generate(repo, names):
     specs = load_specs()
     status = {}
@@ -291,9 +301,11 @@ def generate(repo, names):
             out = ("// GENERATED by /verif/lib/gen_segments.py from the current source; do not edit\n"
                    "#![allow(unused, unused_mut, unused_variables, unused_imports, unused_assignments, unreachable_code, "
                    "clippy::all)]\n"
-                   "use super::*;\nuse crate::dev::verif_env::*;\n" + "\n".join(uses_u) + "\n" +
+                   "use super::*;\nuse crate::dev::verif_env::*;\n" +
+                   ("" if spec.get("parent") else "\n".join(uses_u)) + "\n" +
                    spec.get("uses", "") + "\n\nimpl KEnv {\n" + "\n".join(fns) + "}\n")
-            dst = os.path.join(repo, "src/dev/verif_seg_%s.rs" % name.lower())
+            dst = os.path.join(repo, seg_module_path(spec, name))
+            os.makedirs(os.path.dirname(dst), exist_ok=True)
             with open(dst, "w") as f:
                 f.write(out)
             status[name] = {"ok": True, "sha": sha.hexdigest()[:12]}
